@@ -3,7 +3,7 @@ use crate::ast::{Ident, LitUuid};
 use crate::diag::{Diagnostic, DiagnosticKind, Renderer};
 use crate::issues::Issues;
 use crate::{Parser, Schema};
-use std::collections::HashMap;
+use std::collections::BTreeMap;
 
 #[derive(Debug)]
 pub(crate) struct DuplicateServiceUuid {
@@ -17,7 +17,12 @@ impl DuplicateServiceUuid {
     where
         I: IntoIterator<Item = &'a Schema>,
     {
-        let mut uuids: HashMap<_, Vec<_>> = HashMap::new();
+        // Schemas arrive in hash-map order. Visit them (and the uuids) in a fixed order, so that
+        // the same input always yields the same diagnostics.
+        let mut schemas = Vec::from_iter(schemas);
+        schemas.sort_by_key(|schema| schema.name());
+
+        let mut uuids: BTreeMap<_, Vec<_>> = BTreeMap::new();
 
         for schema in schemas {
             for def in schema.definitions() {
